@@ -328,7 +328,14 @@ func (r *Report) writeEvidence(discharged, violations, knownHits, distinct int) 
 
 // linkObligations evaluates another property's rules on the same program and files those obligations that match under
 // a rule of this report: the linked rule is a necessary condition of both properties.
+var linking = map[string]bool{}
+
 func linkObligations(w *World, r *Report, from func(*World, *Report), fromProp string, match func(*Obligation) bool, toRule string) {
+	if linking[fromProp] {
+		return // the property is being evaluated further up the chain of links: its obligations are reported there
+	}
+	linking[fromProp] = true
+	defer delete(linking, fromProp)
 	sub := NewReport(fromProp, r.Tier, r.Seed, r.VerifDir)
 	sub.NoEvidence = true
 	from(w, sub)
@@ -339,7 +346,17 @@ func linkObligations(w *World, r *Report, from func(*World, *Report), fromProp s
 			r.add(toRule, o.Construct, o.Pos, o.Status, o.Detail, o.Witness)
 		}
 	}
-	if n == 0 {
+	if n == 0 && !linkOptional {
 		r.Unknown(toRule, "linked obligations of "+fromProp, "-", "none found")
 	}
+}
+
+var linkOptional bool
+
+// linkObligationsOpt: as linkObligations, for obligations that exist only when something is wrong (e.g. a location that
+// became shared between goroutines): finding none is the good case.
+func linkObligationsOpt(w *World, r *Report, from func(*World, *Report), fromProp string, match func(*Obligation) bool, toRule string) {
+	linkOptional = true
+	defer func() { linkOptional = false }()
+	linkObligations(w, r, from, fromProp, match, toRule)
 }
